@@ -138,6 +138,9 @@ def bad_literals():
         out.append((base + '\\xg1"\n', (1, col0 + 2), "InvalidHexChar"))
         out.append((base + '\\x1g"\n', (1, col0 + 3), "InvalidHexChar"))
         out.append((base + '\\x4é"\n', (1, col0 + 3), "InvalidHexChar"))
+        out.append((base + '\\x4\u0141"\n', (1, col0 + 3), "InvalidHexChar"))      # U+0141: low byte is 'A'
+        out.append((base + '\\x\u01314"\n', (1, col0 + 2), "InvalidHexChar"))      # U+0131: low byte is '1'
+        out.append((base + '\\x\uff11\uff12"\n', (1, col0 + 2), "InvalidHexChar"))  # full-width digits
         out.append((base + '\\x+4"\n', (1, col0 + 2), "InvalidHexChar"))
         out.append((base + '\\x-1"\n', (1, col0 + 2), "InvalidHexChar"))
         out.append((base + '\\x 4"\n', (1, col0 + 2), "InvalidHexChar"))
